@@ -292,6 +292,9 @@ def gen_cases(tier, rng):
                     add(enc, ver, ctx, cls, 2, 2, e2e=True)
                     if ctx == "D" or not quick:
                         add(enc, ver, ctx, cls, 2, 0, e2e=(ctx == "D"))          # the special character last (CDATA look-ahead, section left open)
+                    if ctx == "D" and (cls in ("rsb", "cdend", "bmp", "supp", "cr") or not quick):
+                        add(enc, ver, ctx, cls, 0, 0)                              # the special character is the WHOLE text (look-ahead / look-behind at both ends)
+                        add(enc, ver, ctx, cls, 0, 2)
             for ctx in ("N", "AN", "PT"):
                 for cls in NAME_CLASSES:
                     add(enc, ver, ctx, cls, 2, 2, e2e=True)
